@@ -367,8 +367,13 @@ fn delta_for_tx(
             }
         }
         crate::portfolio::TxActionSpecifics::Split(split_specs) => {
-            new_share_balance = pre_tx_status.share_balance
-                * split_specs.ratio.pre_to_post_factor().into();
+            // Multiply before dividing, so that whole-number results stay exact
+            // (eg. 9 shares in a 1-for-3 is exactly 3).
+            new_share_balance = GreaterEqualZeroDecimal::try_from(
+                *pre_tx_status.share_balance * *split_specs.ratio.post_split
+                    / *split_specs.ratio.pre_split,
+            )
+            .unwrap();
             let share_diff = *new_share_balance - *pre_tx_status.share_balance;
             // This erroring would be strange in practice. Only if the share balance
             // was already broken.
